@@ -31,6 +31,7 @@ Definition std_pint (p : nat) (l : list Z) : bool :=
 
 (* let x = f(..) uses the total functions; ids >= 100 are the partial ones of if-let *)
 Definition std_bint (f : nat) (l : list Z) : option Z :=
+  if Nat.leb 200 f then Some (Z.of_nat (f - 200)) else       (* let x = <constant c>: id 200 + c *)
   match f with
   | 100%nat => if Z.ltb 0 (arg 0 l) then Some (arg 0 l - 1) else None        (* predpos *)
   | 101%nat => if Z.eqb ((arg 0 l) mod 2) 0 then Some ((arg 0 l) / 2) else None  (* half *)
@@ -43,6 +44,7 @@ Definition std_gint (g : nat) (l : list Z) : list Z :=
   match g with
   | 0%nat => zrange 0 (Z.to_nat (Z.min (arg 0 l) 4))     (* upto: 0..min(a,4) *)
   | 1%nat => [arg 0 l; arg 1 l]                          (* pair *)
+  | 2%nat => [0; 1; 2]                                   (* range3: 0..3 *)
   | _ => []
   end.
 
